@@ -71,7 +71,7 @@ func c04Leaf(name string, sym bool) any {
 		}
 		// strings whose JSON text needs care: quotes, backslashes, control characters, non-ASCII,
 		// HTML-sensitive characters, and text that merely LOOKS like an escape sequence
-		return []string{"a\"b\\c é\n", "<\\u003c&\\u0026>\\n", "\u2028\u0001\\"}[vh.Choose(name+"t", 3)]
+		return []string{"a\"b\\c é\n", "<\\u003c&\\u0026>\\n", "\u2028\u0001\\", "100% %d %s %%"}[vh.Choose(name+"t", 4)]
 	case 2:
 		if sym {
 			return vh.Bool(name + "b")
@@ -248,4 +248,19 @@ func VHC04Cli() {
 	perr := json.Unmarshal([]byte(text), &back)
 	vh.Assert(perr == nil, "C04: what -o writes is valid JSON (nothing of an older, longer file survives)")
 	vh.Assert(jsonEqual(back, doc), "C04: what -o writes parses to a value equal to the input")
+}
+
+// VHC04Deep: values nested to any depth the program can build are written in full by
+// json() (there is no depth at which a well-formed value stops being expressible).
+func VHC04Deep() {
+	d := []int{10, 999, 1000, 1001, 1500, 4000}[vh.Choose("depth", 6)]
+	shape := vh.Choose("shape", 2)
+	wrap, open := "a = [a]", "["
+	if shape == 1 {
+		wrap, open = "a = {k: a}", "{"
+	}
+	out, k := runProg("BEGIN { a = 1; for (i = 0; i < " + itoa(d) + "; i++) { " + wrap + " }\ns = json(a); print s.split('" + open + "').length() }")
+	vh.Reach("deep value serialised")
+	vh.Assert(k == OK, "C04: json() of a value nested "+itoa(d)+" deep succeeds")
+	vh.Assert(out == itoa(d+1)+"\n", "C04: json() of a deeply nested value has every level in it")
 }
